@@ -1,5 +1,6 @@
 //! Replay of the exhaustively enumerated lattice (spec/MC_Lattice.tla) into the real code.
 //! Every exported instance carries the exact expected observables at every lattice alpha.
+use std::panic::{catch_unwind, AssertUnwindSafe};
 use crate::models::*;
 use crate::prob::*;
 use crate::report::Report;
@@ -175,11 +176,19 @@ fn many_functions_probe<T: Sc>(rep: &mut Report) {
             }
             T::of64(v + 0.01 * ((i * 13 + q) % 17) as f64)
         });
-        let mk = |par: bool| build_problem(FourierModel::<T>::new(n, h, 1.0), mrhs, par, &y, w.as_deref(), None);
-        let (Ok(mut seq), Ok(mut par)) = (mk(false), mk(true)) else {
-            rep.tool_error("many functions probe: cannot build".into());
-            continue;
+        let mk = |par: bool| catch_unwind(AssertUnwindSafe(|| build_problem(FourierModel::<T>::new(n, h, 1.0), mrhs, par, &y, w.as_deref(), None)));
+        let (mut seq, mut par) = match (mk(false), mk(true)) {
+            (Ok(Ok(a)), Ok(Ok(b))) => (a, b),
+            (Err(_), _) | (_, Err(_)) => {
+                rep.violation("C08", json!({"flavour": format!("many functions probe M={} N={}", 2 * h + 1, n), "what": "building the problem panicked (finite, moderate, well conditioned data)"}));
+                continue;
+            }
+            _ => {
+                rep.tool_error("many functions probe: cannot build".into());
+                continue;
+            }
         };
+        rep.ok("C08", 0.0);
         for wv in [1.0f64, 0.93, 1.05] {
             let flav = format!("many functions probe M={} N={} S={} weighted={} w={}", m, n, s, weighted, wv);
             let det = |what: &str, dv: f64| json!({"flavour": flav, "what": what, "dev": dv});
@@ -225,6 +234,79 @@ fn many_functions_probe<T: Sc>(rep: &mut Report) {
             }
         }
         rep.count("many_functions_probes", 1);
+    }
+}
+
+/// Beyond the universe TLC enumerates: MANY right hand sides (S = 70 and 131: above and not a multiple of
+/// any plausible block size).  Every column of the multi-column problem is compared with the single
+/// right hand side problem on that column (coefficients, residual block, Jacobian block), sequential
+/// and parallel.
+fn many_columns_probe<T: Sc>(rep: &mut Report) {
+    for (s, weighted, par) in [(70usize, false, false), (131, true, false), (70, true, true)] {
+        let n = 30usize;
+        let h = 2usize;
+        let m = 2 * h + 1;
+        let model0 = FourierModel::<T>::new(n, h, 1.0);
+        let w: Option<Vec<T>> = if weighted { Some((0..n).map(|i| T::of64(0.5 + ((i * 5) % 7) as f64 / 4.0)).collect()) } else { None };
+        let pt = model0.phi64(1.1);
+        let y = DMatrix::from_fn(n, s, |i, q| {
+            let mut v = 0.0;
+            for j in 0..m {
+                v += pt[(i, j)] * (((j * 3 + q * 7) % 11) as f64 - 5.0) / 4.0;
+            }
+            T::of64(v + 0.25 * ((i * 7 + q * 3) % 13) as f64)
+        });
+        let built = catch_unwind(AssertUnwindSafe(|| build_problem(FourierModel::<T>::new(n, h, 1.0), true, par, &y, w.as_deref(), None)));
+        let mut multi = match built {
+            Ok(Ok(p)) => p,
+            Ok(Err(_)) => {
+                rep.tool_error("many columns probe: cannot build".into());
+                continue;
+            }
+            Err(_) => {
+                rep.violation("C08", json!({"flavour": format!("many columns probe S={s}"), "what": "building the problem panicked"}));
+                continue;
+            }
+        };
+        for wv in [1.0f64, 0.9] {
+            multi.set_params(&[T::of64(wv)]);
+            let om = observe(multi.as_ref());
+            let flav = format!("many columns probe {} M={} N={} S={} weighted={} par={} w={}", T::NAME, m, n, s, weighted, par, wv);
+            let (Some(cm), Some(rm), Some(jm)) = (&om.cm, &om.r, &om.jm) else {
+                rep.violation("C07", json!({"flavour": flav, "what": "coefficients / residuals / Jacobian absent although the model evaluates"}));
+                continue;
+            };
+            let mut worst = 0.0f64;
+            let mut worst_col = 0usize;
+            for q in 0..s {
+                let yq = DMatrix::from_fn(n, 1, |i, _| y[(i, q)]);
+                let Ok(mut single) = build_problem(FourierModel::<T>::new(n, h, 1.0), false, false, &yq, w.as_deref(), None) else {
+                    continue;
+                };
+                single.set_params(&[T::of64(wv)]);
+                let os = observe(single.as_ref());
+                let (Some(cs), Some(rs), Some(js)) = (&os.cm, &os.r, &os.jm) else {
+                    continue;
+                };
+                let scale = y.column(q).iter().fold(1.0f64, |mx, v| mx.max(v.to64().abs()));
+                let mut d = 0.0f64;
+                for j in 0..m {
+                    d = d.max((cm[(j, q)].to64() - cs[(j, 0)].to64()).abs() / scale);
+                }
+                for i in 0..n {
+                    d = d.max((rm[q * n + i].to64() - rs[i].to64()).abs() / scale);
+                    d = d.max((jm[(q * n + i, 0)].to64() - js[(i, 0)].to64()).abs() / (scale * 10.0));
+                }
+                if d > worst {
+                    worst = d;
+                    worst_col = q;
+                }
+            }
+            rep.check("C07", worst <= T::tol(), worst, || {
+                json!({"flavour": flav, "col": worst_col, "dev": worst, "what": "column / block differs from the single right hand side problem on that column"})
+            });
+        }
+        rep.count("many_columns_probes", 1);
     }
 }
 
@@ -1220,6 +1302,20 @@ fn check_finish<T: Sc>(inst: &Inst<T>, qi: usize, fin: &Finish<T>, ev: EpsVar, f
     let _ = ev;
 }
 
+/// the probes beyond the enumerated universe (also available on their own: subcommand `probes`)
+pub fn run_probes(total: &mut Report) {
+    signed_zero_probe::<f64>(total);
+    signed_zero_probe::<f32>(total);
+    many_functions_probe::<f64>(total);
+    many_columns_probe::<f64>(total);
+    many_columns_probe::<f32>(total);
+}
+pub fn probes() -> Report {
+    let mut rep = Report::new();
+    run_probes(&mut rep);
+    rep
+}
+
 pub fn run(path: &str, opts: &Opts) -> Report {
     let lines = crate::export::read_tagged(path, "VPX");
     let pools = Pools::new();
@@ -1245,8 +1341,7 @@ pub fn run(path: &str, opts: &Opts) -> Report {
         .collect();
     let mut total = Report::new();
     signed_zero_probe::<f64>(&mut total);
-    signed_zero_probe::<f32>(&mut total);
-    many_functions_probe::<f64>(&mut total);
+    run_probes(&mut total);
     total.count("export_lines", parsed.len() as u64);
     for r in reports {
         total.merge(r);
